@@ -112,6 +112,11 @@ uper_open_type_get_simple(const asn_codec_ctx_t *ctx,
 	spd.buffer = buf;
 	spd.nbits = bufLen << 3;
 
+	if(!td->op->uper_decoder) {
+		FREEMEM(buf);
+		ASN__DECODE_FAILED;
+	}
+
 	ASN_DEBUG_INDENT_ADD(+4);
 	rv = td->op->uper_decoder(ctx, td, constraints, sptr, &spd);
 	ASN_DEBUG_INDENT_ADD(-4);
